@@ -183,11 +183,14 @@ theorem C02_no_spontaneous_close (lim : Limiter) (sr tr : List ReadEv) (sw tw : 
 
 /-! ### Re-attached source connections -/
 
-/-- T2 tie: `Bridge.Start`'s source goroutine re-reads the installed forwarder under `sourceConnMu`
+/-- T2 tie: `Bridge.Start` sets up its forwarders under the locks `Close` and `SetSourceConnection` write
+them under (fix eab71ba), its source goroutine re-reads the installed forwarder under `sourceConnMu`
 before and after every copy, and `dynamicSourceWriter.Write` reads it for every write. -/
 theorem skel_Start_sourceLoop :
     Skel.Bridge_Start =
-      ["sourceConnMu.RLock", "sourceConnMu.RUnlock", "b.CopyWithControl", "sourceConnMu.RLock", "sourceConnMu.RUnlock",
+      ["tunnelConnMu.Lock", "sourceConnMu.Lock", "CreateDataForwarder", "sourceConnMu.Unlock", "CreateDataForwarder",
+       "tunnelConnMu.Unlock",
+       "sourceConnMu.RLock", "sourceConnMu.RUnlock", "b.CopyWithControl", "sourceConnMu.RLock", "sourceConnMu.RUnlock",
        "b.CopyWithControl"] := by decide
 /-- `SetSourceConnection` publishes the new forwarder under the mutex the readers take (the model's
 "installed forwarder" is one atomic cell; the race-detector build of the harness checks the rest). -/
